@@ -41,6 +41,12 @@ func (g *gctx) redraw(key string) Val {
 		return seqVal(lit(rapid.SampledFrom(floatPool).Draw(g.t, "re-float")))
 	case "map", "list":
 		return g.genStruct(r, 0, 0, true, "")
+	case "map-str":
+		return g.genStruct("map", 0, 2, true, "seq")
+	case "list-str":
+		return g.genStruct("list", 0, 2, true, "seq")
+	case "map-liststr":
+		return g.genMapOfLists(true)
 	case "scalar":
 		return seqVal(lit(rapid.SampledFrom(scalarPool).Draw(g.t, "re-scalar")))
 	default: // "dag:<i>": anything that only points forward
@@ -283,6 +289,24 @@ func (g *gctx) genStruct(kind string, minIdx, depth int, quoted bool, leafKinds 
 	return v
 }
 
+// genMapOfLists draws a map whose values are lists of strings (literal, or --
+// outside a provider row only by reference -- whole-value references to such lists).
+func (g *gctx) genMapOfLists(quoted bool) Val {
+	v := Val{K: "map"}
+	for i, n := 0, rapid.IntRange(0, 3).Draw(g.t, "nlists"); i < n; i++ {
+		v.Keys = append(v.Keys, "k"+strconv.Itoa(i))
+		if rapid.IntRange(0, 2).Draw(g.t, "listref") == 0 {
+			k := g.freshKey("s")
+			g.remember(k, "list-str")
+			g.extra = append(g.extra, Entry{Key: k, Val: g.genStruct("list", 0, 2, true, "seq")})
+			v.Items = append(v.Items, seqVal(g.refTo(k, true)))
+			continue
+		}
+		v.Items = append(v.Items, g.genStruct("list", 0, 2, quoted, "seq"))
+	}
+	return v
+}
+
 // genEntryVal draws what a provider row returns.
 func (g *gctx) genEntryVal(minIdx int) Val {
 	switch k := rapid.IntRange(0, 19).Draw(g.t, "entrykind"); {
@@ -340,10 +364,29 @@ func (g *gctx) genField(name string) Val {
 			return seqVal(g.refTo(k, true))
 		}
 		return g.genStruct(kind, 0, 0, false, "")
-	case "mapstr":
-		return g.genStruct("map", 0, 2, false, "seq")
-	case "liststr":
-		return g.genStruct("list", 0, 2, false, "seq")
+	case "mapstr", "liststr":
+		kind := "map"
+		if fieldKind[name] == "liststr" {
+			kind = "list"
+		}
+		if rapid.IntRange(0, 2).Draw(g.t, "strstructref") == 0 {
+			// a whole-value reference to a map/list of strings: every element must arrive as its original text
+			k := g.freshKey("s")
+			g.remember(k, kind+"-str")
+			g.extra = append(g.extra, Entry{Key: k, Val: g.genStruct(kind, 0, 2, true, "seq")})
+			return seqVal(g.refTo(k, true))
+		}
+		return g.genStruct(kind, 0, 2, false, "seq")
+	case "mapliststr":
+		// map[string][]string: the lists are literal, or whole-value references to lists of strings, or the
+		// whole map is one reference
+		if rapid.IntRange(0, 3).Draw(g.t, "mlsref") == 0 {
+			k := g.freshKey("s")
+			g.remember(k, "map-liststr")
+			g.extra = append(g.extra, Entry{Key: k, Val: g.genMapOfLists(true)})
+			return seqVal(g.refTo(k, true))
+		}
+		return g.genMapOfLists(false)
 	case "sub":
 		v := Val{K: "map"}
 		if rapid.Bool().Draw(g.t, "sub.s") {
@@ -360,7 +403,7 @@ func (g *gctx) genField(name string) Val {
 	return Val{K: "seq"}
 }
 
-var fieldNames = []string{"s1", "s2", "s3", "i", "b", "f", "m", "ms", "l", "ls", "sub"}
+var fieldNames = []string{"s1", "s2", "s3", "i", "b", "f", "m", "ms", "l", "ls", "mls", "sub"}
 
 func genX(t *rapid.T) XScript {
 	g := &gctx{t: t, def: rapid.Bool().Draw(t, "default"), used: map[string]bool{}}
